@@ -252,6 +252,32 @@ def c09_a(ctx: Ctx):
         else:
             out.append(ctx.viol(R, fi2, r, f"KeyError ('no such job') is raised without having found the job directory absent (facts: {sorted(facts)}): a directory that exists but lacks its state point "
                                 "file - the state left by a crash during init or between the renames of a re-key - is reported as 'not there' instead of as corrupted", construct=WSREAD + "|keyerror-guard"))
+    # whatever valid JSON a damaged file holds (a list, null, a string), the comparison must end in JobsCorruptedError: the hash function itself raises nothing
+    cid = ctx.fn("signac.job:calc_id")
+    exf = ExcFacts(ctx)
+    rz = sorted(exf.raised(cid))
+    kc = "signac.job:calc_id|total"
+    if rz:
+        caught = False
+        out.append(ctx.viol(R, cid, cid.node, f"calc_id() can raise {', '.join(x.split(':')[-1] for x in rz)} for data it does not like: the readers map only OSError / ValueError to "
+                            "JobsCorruptedError, so a state point file that was replaced by valid JSON of another shape ([] , null, \"a\") makes check() / open_job die with that error "
+                            "instead of naming the damaged job", construct=kc))
+    else:
+        out.append(ctx.ok(R, cid, cid.node, "calc_id() raises nothing of its own: any decoded JSON value is hashed and compared", construct=kc))
+    from .lints import binary_data_io
+    out += binary_data_io(ctx, R, [WSREAD], "so what is hashed is not what is in the file")
+    gsp = ctx.fn(GETSP)
+    for fl in [p for p in gsp.params if p == "validate"]:
+        d = gsp.default_of(fl)
+        v = ctx.fold(d, gsp) if d is not None else UNKNOWN
+        kd = GETSP + "|default:" + fl
+        if v is True:
+            out.append(ctx.ok(R, gsp, gsp.node, "the cache-miss look-up _get_statepoint validates by default", construct=kd))
+        elif v is False:
+            out.append(ctx.viol(R, gsp, gsp.node, "_get_statepoint(..., validate=False) by default: every caller that does not ask for validation (Job.cached_statepoint, the index built for a "
+                                "filtered find_jobs) accepts and caches a state point file that is valid JSON but does not hash to its directory name", construct=kd))
+        else:
+            out.append(ctx.inc(R, gsp, gsp.node, f"default of '{fl}' is not a constant", construct=kd))
     # 2c. registration overwrites: a validated state point replaces whatever an unvalidated look-up left in the cache
     reg = ctx.fn("signac.project:Project._register")
     st = [n for n in body_nodes(reg) if isinstance(n, ast.Assign) and any(isinstance(t, ast.Subscript) and canon(t.value) == "self._sp_cache" for t in n.targets)]
@@ -298,6 +324,17 @@ def c09_a(ctx: Ctx):
     gcfg = ctx.cfg(g)
     clears = [n.id for n in gcfg.stmt_nodes() if isinstance(n.ast, ast.Assign) and any(canon(t) == "self._statepoint_requires_init" for t in n.ast.targets)
               and ctx.fold(n.ast.value, g) is False]
+    # ... or a helper method of the same object that clears it
+    for n in gcfg.stmt_nodes():
+        if n.kind != "stmt":
+            continue
+        for c in walk_no_nested(n.ast):
+            if isinstance(c, ast.Call) and isinstance(c.func, ast.Attribute) and canon(c.func.value) == "self":
+                for tq in common.targets_of(ctx, g, c):
+                    h = ctx.prog.funcs.get(tq)
+                    if h is not None and any(isinstance(x, ast.Assign) and any(canon(t) == "self._statepoint_requires_init" for t in x.targets) and ctx.fold(x.value, h) is False
+                                             for x in body_nodes(h)):
+                        clears.append(n.id)
     loads = [n.id for n in gcfg.stmt_nodes() if n.kind == "stmt" and any(isinstance(c, ast.Call) and LOAD in common.targets_of(ctx, g, c) for c in walk_no_nested(n.ast))]
     if clears and loads:
         after = gcfg.reachable(clears, kinds="n")
